@@ -612,6 +612,10 @@ class Result(JsonSerializable):
             self._total_list.extend(other._total_list)
 
         if self._update_type_code == Result.MISCTYPE:
+            if other.num_updates == 0:
+                # `other` was never updated: it has no value to replace the
+                # current one with
+                return
             # For MISCTYPE we just replaced current values with the values from
             # other
             self.num_updates = other.num_updates
